@@ -706,6 +706,9 @@ func pcacheNewestWins(c *Ctx, rule string) {
 			_, norm := Match(Op("phi", "", Any()), b["new"])
 			hasDate := b["new"].Contains(func(y *X) bool { return y.Op == "call" && nameMatches(y.Name, "time.Date") })
 			hasParse := b["new"].Contains(func(y *X) bool { return y.Op == "call" && nameMatches(y.Name, "time.Parse") })
+			usesClock := b["new"].Contains(func(y *X) bool { return y.Op == "call" && (nameMatches(y.Name, "time.Now") || nameMatches(y.Name, "time.Since")) })
+			c.Check(!usesClock, rule, w.Name+" › compared by the advertisement's own time", st.Pos(),
+				"the time records are compared by comes from the record alone", "the time a record is compared by can be the local clock's: records are then ordered by when (and in which order) they were processed, not by their advertisement time — an older record can replace a newer one")
 			c.Check(norm && hasDate && hasParse, rule, w.Name+" › zero time normalised", st.Pos(),
 				"compared time is the parsed advertisement time with the zero value replaced by a fixed non-zero date", "compared time is not normalised: a record without timestamp compares as oldest forever or replaces newer ones")
 			// lastUpdate stored together with provider (same block), with the compared value
